@@ -9,6 +9,7 @@ import NextestModel.Model.Syntax
 import NextestModel.Lemmas.StringRoundTrip
 import NextestModel.Gen.Tables
 import NextestModel.Lemmas.ExprRoundTrip
+import NextestModel.Lemmas.SetsOut
 import NextestModel.Thm.C05
 namespace NextestModel.C20
 open NextestModel NextestModel.Syntax
@@ -281,6 +282,87 @@ theorem print_parse_roundtrip (e : PExpr) (rv gv : List (List Char × Bool))
   obtain ⟨e', h1, h2⟩ := ExprRT.parseTop_printed (MatcherOk (mkCtx (printExpr e) rv gv)) e rv gv hm (wf_or _ e hshape hsets)
   exact ⟨e', by simp only [parseFilterset, h1], h2⟩
 
+/-- the validity tables (the answers of the `regex` / `globset` crates, which the model takes as input) cover every regex
+    and glob text of `e`: the parse of `e`'s source consulted the tables and did not fall back to "assume valid" -/
+def TablesCover (rv gv : List (List Char × Bool)) : PExpr → Prop
+  | .set (.unary _ (.glob v _) _) => (lookup gv v).isSome = true
+  | .set (.unary _ (.regex v) _) => (lookup rv v).isSome = true
+  | .set _ => True
+  | .not _ e => TablesCover rv gv e
+  | .parens e => TablesCover rv gv e
+  | .union _ a b => TablesCover rv gv a ∧ TablesCover rv gv b
+  | .inter _ a b => TablesCover rv gv a ∧ TablesCover rv gv b
+  | .diff a b => TablesCover rv gv a ∧ TablesCover rv gv b
+
+private theorem sets_ok_of_out (rv gv : List (List Char × Bool)) (i1 i2 : List Char) :
+    ∀ e : PExpr, SetsOut.SetsOut (mkCtx i1 rv gv) e → TablesCover rv gv e → SetsOk (mkCtx i2 rv gv) e := by
+  intro e
+  induction e with
+  | set s =>
+    intro ho hc
+    cases s with
+    | unary p m sp =>
+      cases m with
+      | equal v imp => exact ho
+      | contains v imp => exact ho
+      | glob v imp =>
+        obtain ⟨h1, h2, h3⟩ := ho
+        refine ⟨h1, h2, ?_⟩
+        have hc' : (lookup gv v).isSome = true := hc
+        have h3' : lookup gv v ≠ some false := h3
+        show lookup gv v = some true
+        cases hl : lookup gv v with
+        | none => rw [hl] at hc'; cases hc'
+        | some b => cases b with
+          | true => rfl
+          | false => exact absurd hl h3'
+      | regex v =>
+        obtain ⟨h1, h3⟩ := ho
+        refine ⟨h1, ?_⟩
+        have hc' : (lookup rv v).isSome = true := hc
+        have h3' : lookup rv v ≠ some false := h3
+        show lookup rv v = some true
+        cases hl : lookup rv v with
+        | none => rw [hl] at hc'; cases hc'
+        | some b => cases b with
+          | true => rfl
+          | false => exact absurd hl h3'
+    | platform pl sp => trivial
+    | default sp => trivial
+    | all => trivial
+    | none => trivial
+  | not op e ih => intro ho hc; exact ih ho hc
+  | parens e ih => intro ho hc; exact ih ho hc
+  | union op a b iha ihb => intro ho hc; exact ⟨iha ho.1 hc.1, ihb ho.2 hc.2⟩
+  | inter op a b iha ihb => intro ho hc; exact ⟨iha ho.1 hc.1, ihb ho.2 hc.2⟩
+  | diff a b iha ihb => intro ho hc; exact ⟨iha ho.1 hc.1, ihb ho.2 hc.2⟩
+
+/-- **Printing a PARSED expression round-trips** — the property as stated, with no side condition on the expression: for every
+    input string that `Filterset::parse` accepts, printing the resulting expression and parsing the printed text yields the
+    same expression again (modulo source spans), with no error.  The shape and the well-formedness of the matchers that the
+    round trip needs are not assumed but derived from the first parse (`C05.parse_shape`, `SetsOut.parseFilterset_out`: an
+    error-free parse yields non-empty values, implicit matchers only in their predicate's default form, regexes not ending in a
+    backslash, and texts the validity oracle accepted).  `TablesCover` only says that the oracle's answers used for the second
+    parse include the texts of the first. -/
+theorem parsed_expression_roundtrips (input : List Char) (rv gv : List (List Char × Bool)) (e : PExpr)
+    (h : parseFilterset input rv gv = .ok e) (hc : TablesCover rv gv e) :
+    ∃ e', parseFilterset (printExpr e) rv gv = .ok e' ∧ dropSpans e' = dropSpans e := by
+  have hout := SetsOut.parseFilterset_out input rv gv e h
+  have hshape : C05.IsOr e := by
+    unfold parseFilterset at h
+    generalize hpt : parseTop (mkCtx input rv gv) input = pt at h
+    obtain ⟨eo, stf⟩ := pt
+    cases eo with
+    | none => simp at h
+    | some e0 =>
+      cases hs : stf.errs with
+      | cons x xs => simp [hs] at h
+      | nil =>
+        simp only [hs, Except.ok.injEq] at h
+        subst h
+        exact C05.parse_shape input rv gv _ stf hpt
+  exact print_parse_roundtrip e rv gv hshape (sets_ok_of_out rv gv input (printExpr e) e hout hc)
+
 /-- what `Filterset::parse` returns for the printed form of `e`, spans forgotten -/
 def reparse (e : PExpr) : Option PExpr :=
   match parseFilterset (printExpr e) [] [] with
@@ -293,6 +375,11 @@ example : reparse (.inter .literalAnd (.not .literalNot (.set (.unary .test (.co
       (.parens (.union .pipe (.set (.unary .kind (.equal "lib".toList false) ⟨0, 0⟩)) (.set .all)))) =
     some (.inter .literalAnd (.not .literalNot (.set (.unary .test (.contains "a b".toList true) ⟨0, 0⟩)))
       (.parens (.union .pipe (.set (.unary .kind (.equal "lib".toList false) ⟨0, 0⟩)) (.set .all)))) := by decide +kernel
+
+-- non-vacuity of `parsed_expression_roundtrips`: a source text with redundant blanks, several operator spellings and an escaped
+-- value is accepted, and its expression re-reads as itself
+example : (match parseFilterset "  not  test( a\\,b ) & ( kind(=lib)|all() )  -  package(foo)".toList [] [] with
+    | .ok x => decide (reparse x = some (dropSpans x)) | .error _ => false) = true := by decide +kernel
 
 /-- without the shape hypothesis the statement is false: a right-nested `or` prints without parentheses and is read back
     left-nested -/
